@@ -17,6 +17,16 @@ Spec vs implementation: `scope oracle` evaluates the property's clauses on the i
 (root probes see every event of the tree); `scope judge` does the same for one given history (used as the
 Spec verdict on a history where implementation and model disagree).
 
+Concurrent closers (harness/cmd/scope/closers.go, `cc …` case lines): k = 2..6 goroutines call Close on the SAME scope
+behind a start barrier (GOMAXPROCS 1..16, call stacks 0..600 frames deep, open tasks and children that finish during
+the close, a parent whose own Close is pending and which has a second open child, listeners on all eight close events
+of the scope and of the parent, failing listeners, errors before / during the close), several rounds per case.  The
+result line (how many calls ran the protocol / were refused with the `scope [..] is closed at` panic / ended any
+other way, every Close result, per firing scope the listener invocations in order) is a function of the case line:
+compared with m_scope (k `close s` acts) and judged by the clauses once_runs / once_events / pick_result / waits /
+parent_once / returns on the implementation alone (`scope coracle`, `scope cjudge`).  A driver process that dies
+(a panic in a goroutine nobody can guard) is a RESULT: the case it died in is re-run alone and reported.
+
 Known finding KF-C11-1 (a child created from a done scope never signs on, so the parent's Close does not
 wait for it) is replayed on every run and counted by the oracle; the waiting clause is checked for every
 child that did sign on.
@@ -39,7 +49,11 @@ META = dict(
              "moves; disabled acts are skipped) of an executable transition system mirroring app/scope: "
              "close_event_order (+ _coarse, close_events_prefix), commit_xor_rollback (+ _coarse, "
              "commit_rollback_exclusive), close_result (+ close_result_keeps_error, finish_returns_or_parks), "
-             "double_close_refused (+ finish_once), shared_same_fate / shared_child_fails_parent, "
+             "double_close_refused (+ finish_once), for ANY number of goroutines calling Close on one scope at the same "
+             "time in ANY interleaving (per-caller program counters, Goat/Model/ScopeClosers.lean) close_protocol_once "
+             "(what is fired is an initial piece of the protocol, each event and the parent's DoneTask at most once, exactly "
+             "once when a call has returned) and closers_one_winner (everybody else is refused), with the evaluated witness "
+             "split_guard_runs_protocol_twice for the variant whose test and set are two steps, shared_same_fate / shared_child_fails_parent, "
              "isolated_child_own_context / isolated_child_contained, isolated_inherits_stop / _kill, and for running "
              "listeners child_afterclose_before_parent_triple (in every reachable state a parent that has started its "
              "triple has only signed-on children whose after-close listeners have all returned), "
@@ -255,6 +269,138 @@ def _account(ctx, ops_path, impl_path, samples):
             samples.append(dict(ops=hist, impl=rs))
 
 
+def _cc_env(ctx):
+    e = ctx.goenv()
+    e["SCOPE_CC_ROUNDS"] = str(ctx.pick(6, 12))
+    return e
+
+
+def _cc_judge(ctx, go, case, mult):
+    """the clauses of the concurrent-closers family on ONE case line, `mult` times its rounds, in a process of
+    its own: (FAIL lines, crash line or None)"""
+    p, out = ctx.path("ccjudge.ops"), ctx.path("ccjudge.out")
+    open(p, "w").write(case + "\n")
+    rc, err = ctx.run_lines(go, ["cjudge", str(mult)], p, out, timeout=600)
+    if rc != 0 and _crash(err):
+        return [], _crash(err)
+    if rc != 0:
+        ctx.fatal("cjudge failed: " + err[-500:])
+    return [l.rstrip("\n") for l in open(out) if l.startswith("FAIL ")], None
+
+
+def _cc_crashed(ctx, go, case, crash, where):
+    """the driver process died while executing `case`: a result, reported with the case as replay"""
+    fails, again = _cc_judge(ctx, go, case, 20)
+    ann = ["%s: the process died: %s" % (where, crash)]
+    if again:
+        ann.append("re-run alone: the process died again: " + again)
+    ann += ["re-run alone: " + f for f in fails[:3]]
+    ctx.violation("impl-vs-spec", "concurrent Close calls on one scope: a goroutine of the implementation panicked and "
+                  "took the process down (%s)%s" % (crash, "; re-run alone: " + fails[0].split(" | ")[0][5:] if fails else ""),
+                  lines=[case], annotations=ann, concrete=True)
+
+
+def _closers(ctx, go, model, shards):
+    """the concurrent-closers family: differential against m_scope + the clauses on the implementation alone.
+    Returns True if a concrete violation was reported."""
+    n_diff, n_or = ctx.pick(1200, 12000), ctx.pick(1200, 12000)
+    env = _cc_env(ctx)
+    concrete = False
+
+    def diff_shard(i):
+        ops = ctx.path("cc%d.ops" % i)
+        rc, err = ctx.run([go, "cgen", str(max(1, n_diff // shards)), str(i)], stdout=ops, env=env)
+        if rc != 0:
+            ctx.fatal("closers generator failed: " + err[-500:])
+        a, b = _run_both(ctx, go, model, ops, "cc%d" % i)
+        return ops, a, b
+
+    def oracle_shard(i):
+        out, last = ctx.path("ccoracle%d.out" % i), ctx.path("ccoracle%d.last" % i)
+        e = dict(env)
+        e["SCOPE_LAST"] = last
+        rc, err = ctx.run_lines(go, ["coracle", str(max(1, n_or // shards)), str(i)], None, out, timeout=1800, env=e)
+        if rc != 0 and _crash(err) and os.path.exists(last):
+            return out, (open(last).read().strip(), _crash(err))
+        if rc != 0:
+            ctx.fatal("closers oracle failed: " + err[-500:])
+        return out, None
+
+    with concurrent.futures.ThreadPoolExecutor(max_workers=shards) as ex:
+        diffs = list(ex.map(diff_shard, range(shards)))
+    with concurrent.futures.ThreadPoolExecutor(max_workers=shards) as ex:
+        oracles = list(ex.map(oracle_shard, range(shards)))
+    # --- the clauses on the implementation alone
+    cases = rounds = 0
+    fails = []
+    for out, crashed in oracles:
+        if crashed:
+            _cc_crashed(ctx, go, crashed[0], crashed[1], "oracle")
+            concrete = True
+        for l in open(out):
+            if l.startswith("FAIL "):
+                fails.append(l.rstrip("\n"))
+            elif l.startswith("coracle "):
+                for tok in l.split()[1:]:
+                    k, _, v = tok.partition("=")
+                    if k == "cases":
+                        cases += int(v)
+                    elif k == "rounds":
+                        rounds += int(v)
+                    elif k != "fails":
+                        ctx.histogram["closers:" + k] += int(v)
+    ctx.evaluations += rounds
+    for f in fails[:2]:
+        body, _, case = f.partition(" | ")
+        ctx.violation("impl-vs-spec", "concurrent Close calls on one scope: a clause of the property fails on the "
+                      "implementation: " + body[5:], lines=[case], annotations=["oracle: " + body], concrete=True)
+        concrete = True
+    # --- implementation against the model
+    dcases, mism, samples = 0, [], []
+    for ops, a, b in diffs:
+        lines = [l.rstrip("\n") for l in open(ops) if l.strip()]
+        ra, rb = open(a).read().split("\n"), open(b).read().split("\n")
+        for i, case in enumerate(lines):
+            x = ra[i] if i < len(ra) else ""
+            y = rb[i] if i < len(rb) else ""
+            if x.startswith("crashed: "):
+                _cc_crashed(ctx, go, case, x[9:], "differential")
+                concrete = True
+                break
+            dcases += 1
+            f = case.split(" ")
+            ctx.note_case(case, nontrivial=("acc=1 " in x and " ref=0 " not in x and (f[4] != "0" or f[5] != "0" or f[6] != "0")),
+                          kind="closers")
+            ctx.histogram["closers:diff-k%s" % f[1]] += 1
+            if x != y:
+                mism.append((case, x, y))
+            elif len(samples) < 2 and f[6] != "0" and len(x) < 900:
+                samples.append(dict(ops=[case], impl=[x], model=[y]))
+    ctx.evaluations += dcases
+    for case, x, y in mism[:2]:
+        fl, crash = _cc_judge(ctx, go, case, 20)
+        if crash:
+            _cc_crashed(ctx, go, case, crash, "judge")
+            concrete = True
+        elif fl:
+            ctx.violation("impl-vs-spec", "concurrent Close calls on one scope: implementation and model differ and the "
+                          "implementation contradicts the property: " + "; ".join(v.split(" | ")[0][5:] for v in fl[:3]),
+                          lines=[case], annotations=["impl: " + x, "model: " + y] + ["spec: " + v.split(" | ")[0] for v in fl[:3]],
+                          concrete=True)
+            concrete = True
+        else:
+            ctx.violation("impl-vs-model", "concurrent Close calls on one scope: implementation and model differ (the "
+                          "clauses hold on 20x the rounds of this case)", lines=[case],
+                          annotations=["impl: " + x, "model: " + y], concrete=False)
+    ctx.extra["concurrent_closers"] = dict(
+        differential_cases=dcases, differential_mismatches=len(mism), oracle_cases=cases, oracle_rounds=rounds,
+        oracle_failing_cases=len(fails), rounds_per_case=int(env["SCOPE_CC_ROUNDS"]),
+        what="k in 2..6 goroutines call Close on one scope behind a start barrier; counts and orders of recorded events only")
+    ctx.log("closers: %d cases compared with the model (%d differ), %d cases / %d rounds judged (%d failing)"
+            % (dcases, len(mism), cases, rounds, len(fails)))
+    return concrete, samples
+
+
 def _kf_replay(ctx, go, model):
     for kf in ctx.known_findings():
         if kf["id"] != KF_ID:
@@ -289,7 +435,14 @@ def run(ctx):
                 "starts with the deterministic family of 64 `parent Close pending, child Close enters a gated listener (8 events "
                 "x ok/err x shared/isolated x child/grandchild), calls issued meanwhile, release, settle`: "
                 "%d histories for the differential, %d for the oracle; non-trivial = at least one Close returned AND at "
-                "least one call panicked / was refused / blocked / busy; distinct = distinct history text" % (n_hist, n_oracle))
+                "least one call panicked / was refused / blocked / busy; distinct = distinct history text.  Concurrent-closers cases "
+                "`cc k procs depth tasks kids par err rounds` (k 2..6 goroutines Close one scope behind a start barrier; "
+                "GOMAXPROCS 1..16; call-stack depth 0..600; 0..3 open tasks and 0..2 open children finished during the "
+                "close; no parent / shared / isolated child of a parent whose Close is pending and which has a second open "
+                "child; error none / before / by a child / from one of the eight listeners; shard 0 starts with the "
+                "deterministic 60 = every k x parent kind x shallow/deep x 2/16 procs), each run for several rounds, "
+                "compared with the model and judged by the oracle (counts in extra.concurrent_closers); non-trivial = one "
+                "call ran the protocol, at least one was refused, and there was work or a parent" % (n_hist, n_oracle))
     concrete_found = False
     samples = []
     # --- corpus first
@@ -318,6 +471,10 @@ def run(ctx):
         ctx.violation("impl-vs-spec", "a clause of the property fails on the implementation: " + body[5:],
                       lines=hist.split(";"), annotations=["oracle: " + body], concrete=True)
         concrete_found = True
+    # --- concurrent closers: k goroutines close the same scope at the same moment
+    cc_concrete, cc_samples = _closers(ctx, go, model, shards)
+    concrete_found = concrete_found or cc_concrete
+    ctx.samples = (ctx.samples + cc_samples)[:5]
     # --- known finding
     _kf_replay(ctx, go, model)
     # --- differences between implementation and model
@@ -386,7 +543,9 @@ def run(ctx):
             "branch:rollback-listener-ran", "branch:commit-listener-ran", "branch:error-event-delivered", "oracle:kf1",
             "ongate:ok", "release:ok", "on:busy", "branch:goroutine-parked-in-listener", "branch:close-released-by-release",
             "branch:call-succeeds-while-a-listener-runs", "branch:late-child-of-a-scope-parked-in-its-triple",
-            "oracle:rollback", "oracle:commit", "oracle:blocked", "oracle:isolated"]
+            "oracle:rollback", "oracle:commit", "oracle:blocked", "oracle:isolated",
+            "closers:k2", "closers:k6", "closers:par1", "closers:par2", "closers:procs1", "closers:procs16",
+            "closers:deep-stack", "closers:rollback", "closers:commit", "closers:work-during-close"]
     zero = [k for k in want if not ctx.histogram.get(k)]
     if zero:
         ctx.notes.append("coverage gap: zero hits for " + ", ".join(zero))
@@ -420,10 +579,36 @@ def run(ctx):
             ctx.obligation_violations(bad, searcher=lambda: concrete_found)
 
 
+def _replay_closers(ctx, go, model, cases):
+    rc = 0
+    ops = ctx.path("replay.ops")
+    open(ops, "w").write("\n".join(cases) + "\n")
+    a, b = _run_both(ctx, go, model, ops, "replay")
+    ra, rb = open(a).read().split("\n"), open(b).read().split("\n")
+    for i, c in enumerate(cases):
+        x, y = (ra[i] if i < len(ra) else ""), (rb[i] if i < len(rb) else "")
+        print("case  ", c)
+        print("impl  ", x)
+        print("model ", y)
+        if x != y:
+            rc = 1
+        fl, crash = _cc_judge(ctx, go, c, 20)
+        if crash:
+            print("spec   the process died:", crash)
+            rc = 1
+        for v in fl:
+            print("spec  ", v.split(" | ")[0])
+            rc = 1
+    print("replay:", "still failing" if rc else "implementation and model agree, the property's clauses hold")
+    return rc
+
+
 def replay(ctx, path):
     go = ctx.build_go("scope")
     model = ctx.build_model("m_scope")
     lines = lib.replay_ops(path)
+    if any(l.startswith("cc ") for l in lines):
+        return _replay_closers(ctx, go, model, [l for l in lines if l.startswith("cc ")])
     if lines and lines[0] != "reset":
         lines = ["reset"] + lines
     ops = ctx.path("replay.ops")
